@@ -67,7 +67,7 @@ def main():
         ],
         "checks": checks,
         "not_applicable": na,
-        "notes": "Exit codes of ./check: 0 = property held on everything explored; 1 = reproduced violation (VIOLATION line); 2 = machinery could not decide (timeout, vacuity, non-reproducing counterexample) - never reported as success. Genuine defects are recorded in known_findings.json: five `fixed` entries (repaired by fix: commits in the repository; they suppress nothing) and one `open` entry for C06 (generated constant names capture a user constant, enum ConstNamed), for which ./check C06 prints KNOWN-FINDING lines and exits 0.",
+        "notes": "Exit codes of ./check: 0 = property held on everything explored; 1 = reproduced violation (VIOLATION line); 2 = machinery could not decide (timeout, vacuity, non-reproducing counterexample) - never reported as success. Genuine defects are recorded in known_findings.json: six `fixed` entries for five defects F1-F5 (each repaired by a fix: commit in the repository; they suppress nothing) and no `open` entry; an `open` entry would be printed as a KNOWN-FINDING line without failing the check.",
     }
     with open(os.path.join(HERE, "MANIFEST.json"), "w") as f:
         json.dump(m, f, indent=1)
